@@ -459,7 +459,11 @@ func (s *indexKVStore) FindValuesByLike(bucketID uint32, like string, ids []uint
 		return s.findValuesByLike(bucketID, nil, suffix, bytes.HasSuffix, ids)
 	// starts with and ends with *
 	case hashPrefix && hasSuffix:
-		middle := likeSlice[1 : len(likeSlice)-1]
+		// a single '*' is both prefix and suffix: nothing in the middle, every value matches
+		var middle []byte
+		if len(likeSlice) > 1 {
+			middle = likeSlice[1 : len(likeSlice)-1]
+		}
 		return s.findValuesByLike(bucketID, nil, middle, bytes.Contains, ids)
 	default:
 		return s.findValue(bucketID, likeSlice, ids)
